@@ -63,6 +63,13 @@ claim("C08", "HIR argument-provenance identity between signed and emitted operan
       "from the same method's digest, signs the encoder's signing input and returns into_jws(signature); verify_jws side shared with C03-R6.",
       "cryptographic separation between methods' keys; JSON escaping in flattened/general form; the decoding half is C01/C11.", "DESIGN.md §7 C08")
 
+claim("C13", "MIR construction-site enumeration (constructor gate) + HIR guard dominance + argument provenance + derived-impl / serde attribute shape + MIR expression folding of the Duration constructors",
+      "Decides for all inputs: Timestamp(..) is constructed only in from_unix — where Ok is dominated by (0..10_000).contains(year) of the value converted from the `seconds` argument — and in now_utc "
+      "(reviewed: system clock); parse returns only from_unix(parsed.unix_timestamp()) (UTC normalisation, whole seconds, range gate; no panicking to_offset); every TryFrom/FromStr entry delegates to parse; "
+      "checked_add/sub route the time crate's checked result through from_unix; the Duration constructors pass their u32 argument widened to i64 to the same-named time constructor (no u32 scaling); "
+      "Eq/Ord/Hash are the derived field-wise impls on the single private OffsetDateTime field; serde try_from/into wiring.",
+      "correctness of the `time` crate's RFC 3339 parser/formatter and unix conversion; leap seconds.", "DESIGN.md §7 C13")
+
 for _p, _r in {
     "C01": "rules not yet implemented in this revision (planned, DESIGN §7)", "C02": "rules not yet implemented in this revision",
     "C03": "rules not yet implemented in this revision", "C04": "rules not yet implemented in this revision",
